@@ -178,6 +178,8 @@ def h_set(x, e, p, site):
             yield p1, vs; continue
         for p2, v in x.narrow(vs[0], p1):
             if v.sort == 'set': yield p2, v
+            elif v.sort == 'map':            # set(mapping): the set of its keys
+                k = z3.FreshConst(E.S, 'k'); yield p2, SetV(z3.Lambda([k], v.x['present'](k)))
             elif v.sort == 'none': yield p2, Exc('TypeError', site)
             elif v.sort in ('tuple', 'litlist') and all(i.sort == 'str' for i in v.x):
                 t = EMPTY
